@@ -342,6 +342,26 @@ func runC13(r *engine.Run) {
 		}
 		cmp("uplink", s.UplinkChannels, wantUp)
 		cmp("downlink", s.DownlinkChannels, wantDown)
+		// the channel plan as the API hands it out: every channel of the tables, and only those
+		for kind, tbl := range map[string][]band.VerifChannel{"uplink": s.UplinkChannels, "downlink": s.DownlinkChannels} {
+			get := b.GetUplinkChannel
+			if kind == "downlink" {
+				get = b.GetDownlinkChannel
+			}
+			for i := -1; i <= len(tbl); i++ {
+				c.Eval()
+				ch, err := get(i)
+				if i < 0 || i >= len(tbl) {
+					if err == nil {
+						c.Fail(fmt.Sprintf("rp/%s/%s-channel-accessor/invalid-index-accepted", reg.Name, kind), fmt.Sprintf("%v: %s channel %d of %d handed out", cfg, kind, i, len(tbl)), nil)
+					}
+					continue
+				}
+				if err != nil || ch.Frequency != tbl[i].Frequency || ch.MinDR != tbl[i].MinDR || ch.MaxDR != tbl[i].MaxDR {
+					c.Fail(fmt.Sprintf("rp/%s/%s-channel-accessor", reg.Name, kind), fmt.Sprintf("%v: %s channel %d of %d: accessor gives %+v (err %v), the plan holds %+v", cfg, kind, i, len(tbl), ch, err, tbl[i]), nil)
+				}
+			}
+		}
 		if c.WantSample() {
 			c.Sample(func() interface{} {
 				ps, _ := b.GetMaxPayloadSizeForDataRateIndex("9.9.9", "Z", 0)
